@@ -165,6 +165,14 @@ CLAIMED["C02"] = ("Partial proof, of the Go glue around the SM4 block function o
  "Trusted: encryptBlocksAsm (assumed contract), newCipher dispatch, alias.InexactOverlap.",
  "DESIGN.md §0.2, §4 C02")
 
+CLAIMED["C05"] = ("Partial proof, of the decoding and scalar-normalisation glue only: SM2P256Point.SetBytes accepts exactly the three documented forms (one zero byte, 65 bytes starting with 4, 33 bytes starting with 2 or 3), only "
+ "coordinates whose big-endian value is below the field prime, only after the curve check returned nil (uncompressed) or the square root exists (compressed), never panics for any byte string, and leaves the receiver "
+ "untouched whenever it reports an error; normalizeScalar hands the point arithmetic a 32-byte value equal to the scalar itself when it is at most 32 bytes long and to the scalar reduced modulo the group order otherwise. "
+ "Not decided: that point addition, doubling, (base-point) scalar multiplication and inversion agree with exact integer arithmetic - 256-bit nonlinear field arithmetic in assembly and fiat-generated code, outside what "
+ "SMT-discharged verification conditions reach; these operations are exactly what C06/C07/C08/C12 assume as ghost-valued contracts; the Booth recoding and table selection (bit-vector reasoning); encode/decode identity.",
+ "Trusted: p256BigToLittle, p256LessThanP, p256CheckOnCurve, p256Sqrt, p256Mul and the other field primitives (frames and the meaning of the two predicates), math/big ghost-valued contracts (FillBytes is assumed not to overflow the buffer).",
+ "DESIGN.md §0.2, §4 C05")
+
 NOT_APPLICABLE = {
  "C02": "Not reached by the contract technique in this build: the SM4 round function (S-box tables, 32-bit rotations, XOR network) needs the bit-vector mode of the verifier, which exists only as a skeleton; the AES-NI/AVX assembly tiers are outside any Go-level contract. The Go wrappers around the SM4 assembly that cipher modes use are covered under C03. No other technique was substituted.",
  "C04": "GCM/CCM: table-driven GHASH and the fused SM4-GCM assembly need bit-vector reasoning over carry-less multiplication that the arith-mode VC generator cannot express; CCM's Go glue was planned but not reached in this build.",
